@@ -95,7 +95,8 @@ LQ == <<
     "<http://x.y/'--(c)>", "--", "...", "(c)", "+-", ",,", "????", "\n", "!....", "---", "'s", "\"a\"", "(TM)", "\\(c)", "\\--", "&#40;c)",
     "![i'\"](/s)", "_", "1", ".", "-", "(r)", "\\.\\.", "?!?!", "'\"'",
     "<a--b@x--y.zz>", "<u..v+-w@e.fr>", "<p????!!!!@e.fr>", "<irc:a--b...(c)>",
-    "<http://x.y/'a'>", "<a'b@e.fr>", "<http://x.y/\"q\">"
+    "<http://x.y/'a'>", "<a'b@e.fr>", "<http://x.y/\"q\">",
+    "(&#99;)", "(t&#109;)", "(&#x52;)", "&#45;&#45;", ".&#46;.", "+&#45;", "&#34;a&#34;"
 >>
 LQCore == 1..39
 (* byte-level fragments for the command-line entry point: "{x+HH}" is the byte HH *)
